@@ -207,7 +207,7 @@ func propC19(r *kernel.Run) {
 		case k < 4:
 			in.Op = "store"
 			uniq++
-			in.Val = fmt.Sprintf("v%d", uniq)
+			in.Val = fmt.Sprintf("v%d", uniq) + strings.Repeat("x", tp.Draw(4)*tp.Draw(40)) // lengths differ so that an overwrite can shrink a record
 		case k < 7:
 			in.Op = "load"
 		case k < 9:
